@@ -113,7 +113,7 @@ MustNotName(md) == {NameToken(md.args[i]) : i \in {j \in 1..Len(md.args) : md.ar
 \* every text slot of the definition with where it goes
 TextSlots(md) == <<md.about, md.after_help, md.author>> \o [i \in 1..Len(md.args) |-> md.args[i].help]
                  \o [i \in 1..Len(md.subs) |-> md.subs[i].about]
-ControlArgSlots(md) == <<md.version>> \o [i \in 1..Len(md.args) |-> md.args[i].heading]
+ControlArgSlots(md) == <<md.version, md.ov_title, md.ov_section, md.ov_date, md.ov_source, md.ov_manual>> \o [i \in 1..Len(md.args) |-> md.args[i].heading]
 
 \* C19 on an observed page: obs = [panicked, controls: Seq(request names as strings), names_present: set of ids found]
 P19(md, obs) ==
